@@ -8,7 +8,7 @@
 From Coq Require Import ZArith NArith List Bool.
 From Tup Require Import Gen.DiacriticsGen Model.PlaceholderModel Spec.TermSpec Spec.PlaceholderSpec
   Proofs.TermLexFacts Proofs.TermPaintFacts Proofs.PlaceholderToks Proofs.PlaceholderStmt Proofs.PlaceholderMain
-  Proofs.PlaceholderLines Proofs.BlankRowReset.
+  Proofs.PlaceholderLines Proofs.BlankRowReset Proofs.PlaceholderProps13.
 Import ListNotations.
 Open Scope N_scope.
 
@@ -24,7 +24,7 @@ Theorem C13_line_shape : forall p m b, rect_ok p -> mode_ok m ->
       let row := start_row p + N.of_nat i in
       nth i lines [] = [27; 91; 48; 109] ++ ser_bgs (row_bgs b row) ++ ser_toks (line_colours p m row)
                        ++ ser_toks (flat_map item_toks (line_cells p m b row)) ++ [27; 91; 48; 109].
-Proof. intros p m b Hp Hm. exact (line_shape p m b Hp (blank_reset_always p) Hm). Qed.
+Proof. exact c13_line_shape_stmt. Qed.
 Print Assumptions C13_line_shape.
 
 (* 2. any selection [sel] of the emitted lines (subset, reordering, repetition) written one per
@@ -42,10 +42,7 @@ Theorem C13_lines_alone_decode :
       sgr t' = default_attrs /\
       forall x y, (0 <= x < W)%Z -> (0 <= y < H)%Z ->
         decode_at (scr t') (Z.to_nat W) (Z.to_nat x) y = expected_selected H p sel (cy t0) x y.
-Proof.
-  intros W H p m b t0 sel restn HW HH Hp Hm.
-  exact (lines_alone W H HW HH p m b t0 sel restn Hp (blank_reset_always p) Hm).
-Qed.
+Proof. exact c13_lines_alone_decode_stmt. Qed.
 Print Assumptions C13_lines_alone_decode.
 
 (* 3a. after any single line (alone, or followed by LF with or without ONLCR), from ANY terminal
@@ -56,14 +53,14 @@ Theorem C13_attrs_reset_after_line : forall (W H : Z) p m b (t0 : term), rect_ok
       sgr (feed W H t0 (nth i lines [])) = default_attrs /\
       sgr (feed W H t0 (tty_onlcr (nth i lines [] ++ [10]))) = default_attrs /\
       sgr (feed W H t0 (nth i lines [] ++ [10])) = default_attrs.
-Proof. intros W H p m b t0 Hp Hm. exact (attrs_reset_line W H p m b t0 Hp (blank_reset_always p) Hm). Qed.
+Proof. exact c13_attrs_reset_after_line_stmt. Qed.
 Print Assumptions C13_attrs_reset_after_line.
 
 (* 3b. after any complete to_stream output, in each of the four styles, from ANY terminal state
    (no fit condition) *)
 Theorem C13_attrs_reset_after_stream : forall (W H : Z) st p m b (t0 : term), rect_ok p -> mode_ok m ->
   exists ws, stream_of st p m (fmt_of b) = Ok ws /\ sgr (feed W H t0 (wire st (concat ws))) = default_attrs.
-Proof. intros W H st p m b t0 Hp Hm. exact (attrs_reset_stream W H st p m b t0 Hp (blank_reset_always p) Hm). Qed.
+Proof. exact c13_attrs_reset_after_stream_stmt. Qed.
 Print Assumptions C13_attrs_reset_after_stream.
 
 (* 4. caller-supplied background applies only inside the placeholder's cells: on a screen whose
@@ -74,9 +71,7 @@ Theorem C13_bg_confined : forall (W H : Z) st p m b (t0 : term), (0 < W)%Z -> (0
   exists ws, stream_of st p m (fmt_of b) = Ok ws /\
     forall x y, (0 <= y < H)%Z -> in_rect H p (origin_x st t0) (origin_y st t0) x y = false ->
       cbg (scr (feed W H t0 (wire st (concat ws))) y x) = CDefault.
-Proof.
-  intros W H st p m b t0 HW HH Hp Hm. exact (bg_confined W H HW HH st p m b t0 Hp (blank_reset_always p) Hm).
-Qed.
+Proof. exact c13_bg_confined_stmt. Qed.
 Print Assumptions C13_bg_confined.
 
 (* C07 for every rectangle (rows >= 297 decode to nothing) and every background formatting *)
@@ -88,9 +83,7 @@ Theorem C13_decodes_formatted :
       let t' := feed W H t0 (wire st (concat ws)) in
       forall x y, (0 <= x < W)%Z -> (0 <= y < H)%Z ->
         decode_at (scr t') (Z.to_nat W) (Z.to_nat x) y = expected_at H p (origin_x st t0) (origin_y st t0) x y.
-Proof.
-  intros W H p m b st t0 HW HH Hp Hm. exact (stream_decodes_all W H HW HH st p m b t0 Hp (blank_reset_always p) Hm).
-Qed.
+Proof. exact c13_decodes_formatted_stmt. Qed.
 Print Assumptions C13_decodes_formatted.
 
 (* non-vacuity, and the F-C13 witness on the repaired model: rows 296..298 (two of them beyond the
